@@ -317,8 +317,14 @@ class NDNApp:
             ret = False
         finally:
             self.face.shutdown()
-        self._clean_up()
-        await task
+            # Also when face.run() raises (e.g. ConnectionAbortedError): the callbacks of this connection must go,
+            # or the start-up registration of the next connection fails with "Duplicated registration"
+            self._clean_up()
+        try:
+            await task
+        finally:
+            # The start-up task may have installed the callback of one more route after the connection was gone
+            self._clean_up()
         return ret
 
     def _clean_up(self):
